@@ -260,6 +260,15 @@ class NakPdu(AbstractFileDirectiveBase):
             struct_arg_tuple = ("!I", 4)
         else:
             struct_arg_tuple = ("!Q", 8)
+        if len(data) > nak_pdu.packet_len:
+            raise ValueError(
+                f"NAK PDU with length {nak_pdu.packet_len} is followed by"
+                f" {len(data) - nak_pdu.packet_len} surplus bytes"
+            )
+        # The segment requests end where the PDU ends, in front of the CRC16 if there is one.
+        end_of_segment_reqs = nak_pdu.packet_len
+        if nak_pdu.pdu_file_directive.pdu_conf.crc_flag == CrcFlag.WITH_CRC:
+            end_of_segment_reqs -= 2
         nak_pdu.start_of_scope = struct.unpack(
             struct_arg_tuple[0],
             data[current_idx : current_idx + struct_arg_tuple[1]],
@@ -270,15 +279,17 @@ class NakPdu(AbstractFileDirectiveBase):
             data[current_idx : current_idx + struct_arg_tuple[1]],
         )[0]
         current_idx += struct_arg_tuple[1]
-        if current_idx < len(data):
-            packet_size_check = (len(data) - current_idx) % (struct_arg_tuple[1] * 2)
+        if current_idx < end_of_segment_reqs:
+            packet_size_check = (end_of_segment_reqs - current_idx) % (
+                struct_arg_tuple[1] * 2
+            )
             if packet_size_check != 0:
                 raise ValueError(
                     "Invalid size for remaining data, "
                     f"which should be a multiple of {struct_arg_tuple[1] * 2}"
                 )
             segment_requests = []
-            while current_idx < len(data):
+            while current_idx < end_of_segment_reqs:
                 start_of_segment = struct.unpack(
                     struct_arg_tuple[0],
                     data[current_idx : current_idx + struct_arg_tuple[1]],
